@@ -361,6 +361,9 @@ func LearnSpec(r *prng.R) *rec.Rec {
 	switch kind {
 	case "match_value", "load_value":
 		s.SetB("value", r.Bytes(2*((n+15)/16)))
+		if r.Chance(1, 5) {
+			s.Set("_slack", uint64(r.Pick(1, 2, 6, 14)))
+		}
 	default:
 		w, name := headerWordHint(r)
 		s.Set("src", uint64(w)).Set("src_ofs", r.Bits(16))
